@@ -77,14 +77,14 @@ where
     .parse_next(input)
 }
 
-/// Parses unnested string in paren.
+/// Parses unnested string in paren, which must be closed on the same line.
 pub fn paren_str<I, E>(input: &mut I) -> winnow::Result<<I as Stream>::Slice, E>
 where
     I: Stream + StreamIsPartial,
     E: ParserError<I>,
     <I as Stream>::Token: AsChar + Clone,
 {
-    paren(take_till(0.., ')')).parse_next(input)
+    paren(take_till(0.., [')', '\r', '\n'])).parse_next(input)
 }
 
 /// Parses given parser within the paren.
